@@ -29,10 +29,50 @@ def or_split_check(ctx, o):
             return
 
 
+def prefix_alternatives(g):
+    """`$or` whose alternatives match a prefix of one another, followed by a continuation that fits only after the
+    longer one: alternation must be able to come back to a later alternative (no atomic/possessive grouping)"""
+    m = g.r.sample(["mov", "add", "nop", "push", "lea", "xor"], 3)
+    regs = g.r.sample(["%rax", "%rbx", "%rcx", "%rdx", "%rsi"], 3)
+    kind = g.int(0, 2)
+    if kind == 0:        # instruction level: x | (x y), then z          on  x y z
+        alts = [m[0], {"$and": [m[0], m[1]]}]
+        if g.chance(0.5):
+            alts.reverse()
+        doc = {"pattern": [{"$or": alts}, m[2]]}
+        insts = [("%x" % (0x1000 + 3 * i), mn, [g.pick(regs)]) for i, mn in enumerate(m)]
+    elif kind == 1:      # operand level: a | (a b), then c               on  op a,b,c
+        alts = [regs[0], {"$and": [regs[0], regs[1]]}]
+        if g.chance(0.5):
+            alts.reverse()
+        doc = {"pattern": [{m[0]: [{"$or": alts}, regs[2]]}]}
+        insts = [("1000", m[0], list(regs))]
+    else:                # inside a $deref field: 0x1 | 0x10               on  0x10(%rsp)
+        offs = ["0x1", "0x10"]
+        if g.chance(0.5):
+            offs.reverse()
+        doc = {"pattern": [{m[0]: [{"$deref": {"main_reg": "rsp", "constant_offset": {"$or": offs}}}, regs[0]]}]}
+        insts = [("1000", m[0], ["[%rsp+0x10]", regs[0]])]
+    if g.chance(0.3):
+        doc["config"] = {"operands-full-match": True, "mnemonics-full-match": g.chance(0.5)}
+    return doc, insts, "prefix-alternatives-%d" % kind
+
+
 def run(ctx, factor):
     ctx.report.rule = ("random nestings (depth <= 3) of $or/$and/$and_any_order at instruction level, operand "
                        "level and inside $deref fields; listings realise one alternative / one ordering, then one "
                        "perturbation; verdict and all-matches texts vs the specification; plus the or-split "
                        "metamorphic check on the implementation; non-trivial = reached the specification comparison")
+    rep = ctx.report
+    for _ in range(ctx.budget(40, 1500) * factor):
+        doc, insts, tag = prefix_alternatives(ctx.g)
+        o = patdiff.observe(ctx, doc, insts, modes=("bool", "all", "first"))
+        usable = patdiff.correspondence(ctx, o)
+        if usable:
+            patdiff.spec_verdict(ctx, o)
+            or_split_check(ctx, o)
+        rep.case(patdiff.case_of(o), usable, tags=[tag])
+        if rep.violations and factor > 1:
+            return
     run_cases(ctx, factor, FEATS, 300, 8000, scan=True, depth=3,
               tagger=blob_tagger(["$or", "$and_any_order", "$and\"", "$deref"]), extra_check=or_split_check)
